@@ -34,6 +34,10 @@ func NewBindingManager(localDevice api.DeviceLocalInterface) *BindingManager {
 
 // is sent from the client (remote device) to the server (local device)
 func (c *BindingManager) AddBinding(remoteDevice api.DeviceRemoteInterface, data model.BindingManagementRequestCallType) error {
+	if data.ClientAddress == nil || data.ServerAddress == nil {
+		return errors.New("clientAddress and serverAddress are required")
+	}
+
 	serverFeature := c.localDevice.FeatureByAddress(data.ServerAddress)
 	if serverFeature == nil {
 		return fmt.Errorf("server feature '%s' in local device '%s' not found", data.ServerAddress, *c.localDevice.Address())
@@ -58,7 +62,7 @@ func (c *BindingManager) AddBinding(remoteDevice api.DeviceRemoteInterface, data
 
 	clientFeature := remoteDevice.FeatureByAddress(data.ClientAddress)
 	if clientFeature == nil {
-		return fmt.Errorf("client feature '%s' in remote device '%s' not found", data.ClientAddress, *remoteDevice.Address())
+		return fmt.Errorf("client feature '%s' in remote device '%s' not found", data.ClientAddress, deviceAddressString(remoteDevice.Address()))
 	}
 	if err := c.checkRoleAndType(clientFeature, model.RoleTypeClient, *data.ServerFeatureType); err != nil {
 		return err
@@ -96,6 +100,10 @@ func (c *BindingManager) RemoveBinding(data model.BindingManagementDeleteCallTyp
 	// b. The absence of "bindingDelete. serverAddress. device" SHALL be treated as if it was
 	//    present and set to the recipient's "device" address part.
 
+	if data.ClientAddress == nil || data.ServerAddress == nil {
+		return errors.New("clientAddress and serverAddress are required")
+	}
+
 	var clientAddress model.FeatureAddressType
 	util.DeepCopy(data.ClientAddress, &clientAddress)
 	if data.ClientAddress.Device == nil {
@@ -104,7 +112,7 @@ func (c *BindingManager) RemoveBinding(data model.BindingManagementDeleteCallTyp
 
 	clientFeature := remoteDevice.FeatureByAddress(data.ClientAddress)
 	if clientFeature == nil {
-		return fmt.Errorf("client feature '%s' in remote device '%s' not found", data.ClientAddress, *remoteDevice.Address())
+		return fmt.Errorf("client feature '%s' in remote device '%s' not found", data.ClientAddress, deviceAddressString(remoteDevice.Address()))
 	}
 
 	serverFeature := c.localDevice.FeatureByAddress(data.ServerAddress)
